@@ -829,15 +829,13 @@ async fn exec_req(w: &World, toks: &[&str]) -> Result<OpOut, String> {
     let token_configured = toks[1] == "token";
     let authorised = !token_configured || spec_carries_token(&headers);
     let req = format!("{method} {path} [{shape}] cfg={}", toks[1]);
+    let changed = if before != after { format!(", database changed ({})", digest_diff(&before, &after)) } else { String::new() };
     if !authorised {
-        if !(400..500).contains(&resp.status) {
-            fails.push(format!("request without the configured token was answered {} (not a client error): {req}", resp.status));
-        }
-        if before != after {
-            fails.push(format!("request without the configured token changed the database ({}): {req}", digest_diff(&before, &after)));
+        if !(400..500).contains(&resp.status) || before != after {
+            fails.push(format!("request without the configured token was not rejected cleanly: {req} -> status {}{changed}", resp.status));
         }
     } else if !(is_write_endpoint(path) && method == "POST") && before != after {
-        fails.push(format!("request to a non-write endpoint changed the database ({}): {req} status {}", digest_diff(&before, &after), resp.status));
+        fails.push(format!("request to a non-write endpoint changed the database: {req} -> status {}{changed}", resp.status));
     }
     let mut tags = vec![format!("req:{out}"), format!("status:{}", resp.status)];
     if !token_configured && resp.status == 400 && out == "400-hdr" {
